@@ -17,7 +17,7 @@ CFG = """CONSTANTS
   Mode = "%s"
 INIT Init
 NEXT Next
-INVARIANTS OrderIndependent Total UnitRatios EmitScn EmitMeta
+INVARIANTS OrderIndependent Total UnitRatios BlockifyLaws EmitScn EmitMeta
 CHECK_DEADLOCK FALSE
 """
 
@@ -26,7 +26,7 @@ def run(ctx):
     counts = {}
     comp = 0
     meta = os.path.join(ctx.scratch, "meta.json")
-    for mode in ("kinds", "units", "weights"):
+    for mode in ("kinds", "units", "weights", "dependent"):
         res = ctx.tlc("Defaulting", None, workers=16, cfg_text=CFG % mode, timeout=900)
         scn, cnt, first = ctx.scenario_lines(res)
         if cnt == 0:
@@ -46,7 +46,7 @@ def run(ctx):
         if c.get("scenarios", 0) != cnt:
             raise MachineryError("harness processed %d of %d scenarios (%s)" % (c.get("scenarios", 0), cnt, mode))
         counts[mode] = cnt
-        comp += c.get("computations", 0) + c.get("units", 0) + c.get("weights", 0) + c.get("pinned-initial", 0)
+        comp += c.get("computations", 0) + c.get("units", 0) + c.get("weights", 0) + c.get("pinned-initial", 0) + c.get("dependent", 0)
         if mode == "kinds":
             ctx.extra["properties"] = c.get("properties")
             ctx.extra["properties_with_explicit_value"] = c.get("properties-with-explicit-value")
@@ -60,7 +60,7 @@ def run(ctx):
         "exhaustive": True, "evaluations": comp, "distinct_nontrivial": total, "scenario_counts": counts,
         "rule": "kinds: 4^4 kind assignments x 2 defaulting classes (+1 meta record), each instantiated with every supported property and "
                 "3 access orders (evaluations = style computations); units: 5 root x 4 x 4 font-size declarations x 2 numbers x 9 units; "
-                "weights: 7^3 bolder/lighter chains. distinct_nontrivial counts the TLC scenarios.",
+                "weights: 7^3 bolder/lighter chains; dependent: 14 displays x 6 contexts (blockification, float), line widths x styles, bleed x marks. distinct_nontrivial counts the TLC scenarios.",
     }, assumptions=[
         "the explicit value of a property is context-free (absolute lengths, keywords); ex/ch units need font metrics and are not generated",
         "pseudo-properties private to webrender (anchor, link, lang, page, string-set, bookmark-*, text-decoration propagation) are only required to be total and order-independent",
